@@ -855,6 +855,17 @@ func (g *gen) literalFor(t *Type, depth int) interface{} {
 	case "i64":
 		return g.rng.Int63() - g.rng.Int63()
 	case "double":
+		switch g.rng.Intn(8) {
+		case 0: // needs more than six decimals
+			g.feat("double_literal_small")
+			return (g.rng.Float64() - 0.5) * 1e-7
+		case 1: // seventeen significant digits
+			g.feat("double_literal_long_mantissa")
+			return g.rng.Float64()*2000 - 1000
+		case 2: // large magnitude, still written without an exponent
+			g.feat("double_literal_large")
+			return float64(g.rng.Int63n(1<<53)) * 4096
+		}
 		return float64(g.rng.Intn(2000000)-1000000) / 64
 	case "string":
 		return []string{"", "plain", "with space", "quote\"inside", "apostrophe's", "unicode é中", "tab\there", "back\\slash", "line\nbreak", "ctl\x01x"}[g.rng.Intn(10)]
